@@ -510,6 +510,15 @@ class Interp:
                     seq = parts
                 else:
                     seq = [Opaque("unpack of non-sequence " + type(v).__name__)] * len(t.elts)
+            stars = [i for i, e in enumerate(t.elts) if isinstance(e, ast.Starred)]
+            if len(stars) == 1 and len(seq) >= len(t.elts) - 1:
+                # a, *rest, z = seq
+                i0 = stars[0]; tail = len(t.elts) - 1 - i0
+                mid = ListVal(list(seq[i0:len(seq) - tail]))
+                for e, x in zip(t.elts[:i0], seq[:i0]): s.assign(e, x, st)
+                st.env[t.elts[i0].value.id] = mid if isinstance(t.elts[i0].value, ast.Name) else None
+                for e, x in zip(t.elts[i0 + 1:], seq[len(seq) - tail:] if tail else []): s.assign(e, x, st)
+                return
             if len(seq) != len(t.elts):
                 seq = [Opaque("unpack length mismatch")] * len(t.elts)
             for e, x in zip(t.elts, seq): s.assign(e, x, st)
